@@ -25,4 +25,6 @@ ChoicesCore == { It("lit", "a"), It("lit", "b"),
 \* the smallest universe that still shows every blind spot (quick tier, 3 items)
 ChoicesMini == { It("lit", "a"), It("lit", "b"), It("text", "x"), It("attr", "x"), It("style", "x"),
                  It("onattr", "h"), It("if", "b"), It("children", "-") }
+\* static text around expressions that carry no literal of their own: edits that move text across Go code (4 items)
+ChoicesText == { It("lit", "a"), It("lit", "b"), It("text", "x"), It("children", "-") }
 =============================================================================
